@@ -342,6 +342,8 @@ def run(ctx):
                   "text-size TextRange/TextSize arithmetic with its documented panics (vf/textmodels.py)", "AstToken::text/syntax and SyntaxToken::text_range on an abstract token (text, symbolic start offset)"]
     res.outside_claim += ["float values (rounding to the nearest double is std's dec2flt)", "integer literals with more digit characters than the bound (values near 2^64 / 2^128)",
                           "negation folding, unit mapping and the literal -> ASG arm (need the AST boundary)"]
+    from . import c10_asg
+    c10_asg.run_asg(ctx, res)
     res.exhaustive = not res.inconclusive
     return res
 
